@@ -667,12 +667,17 @@ func main() {
 					evs = append(evs, nf.Render(es.X))
 				}
 			}
+			var handler []string
 			ast.Inspect(fd.Body, func(n ast.Node) bool {
 				if c, ok := n.(*ast.CallExpr); ok && nf.Render(c.Fun) == "bulk.NewIngestor" {
 					evs = append(evs, nf.Render(c))
 				}
+				if c, ok := n.(*ast.CallExpr); ok && nf.Render(c.Fun) == "NewBulkHandler" {
+					handler = append(handler, nf.Render(c))
+				}
 				return true
 			})
+			e.Strs("newIngestorBulkHandler", handler, "NewIngestor: how the bulk handler (whose reader buffer is the size limit) is built")
 			e.Strs("newIngestorSteps", evs, "NewIngestor: its first statement and how the bulk ingestor is built")
 		}
 
